@@ -405,7 +405,11 @@ def predicates(case):
         for inc_f in (False, True):
             for inc_p in (False, True):
                 Food.conversions.set_nutrition_requirements(2100.0, 47.0, 51.0, inc_f, inc_p, 1e6)
-                v = [rnd.choice([0.0, 1.0, 2.0, -1.0]) for _ in range(6)]
+                # plain values, ties, and values at the edge of the predicates' own tolerances (rounding to N decimals, thresholds)
+                pool = [0.0, 1.0, 2.0, -1.0, 0.0, 1.0, 4e-10, 5e-10, 7e-10, -7e-10, 1.2e-9, 4e-7, 7e-7, -4e-4, 7e-4, -0.5, 0.5, rnd.uniform(-3, 3), rnd.choice([1, -1]) * 10 ** rnd.uniform(-12, 2)]
+                v = [rnd.choice(pool) for _ in range(6)]
+                if rnd.random() < 0.3:
+                    v[3:] = v[:3]
                 a, b = Food(v[0], v[1], v[2]), Food(v[3], v[4], v[5])
                 A = Food(np.array([v[0]]), np.array([v[1]]), np.array([v[2]]))
                 B = Food(np.array([v[3]]), np.array([v[4]]), np.array([v[5]]))
@@ -427,6 +431,16 @@ def predicates(case):
                             viol.append({"mech": "predicate_scalar_vs_one_month_series_disagree:" + p,
                                          "msg": "%s: scalar %s -> %s, one-month series -> %s with include_fat=%s include_protein=%s" % (p, v[:3], s, m, inc_f, inc_p),
                                          "data": {"predicate": p, "a": v[:3], "include_fat": inc_f, "include_protein": inc_p}})
+                # the predicates that take a tolerance, with non-default values of it
+                for p, kw in (("all_equals_zero", {"rounding_decimals": rnd.choice([9, 6, 3, 0])}), ("all_greater_than_or_equal_to_zero", {"threshold": rnd.choice([0, 1e-9, 1e-3, 1.0])})):
+                    n += 1
+                    s_, m_ = bool(getattr(a, p)(**kw)), bool(getattr(A, p)(**kw))
+                    if s_ != m_:
+                        seen[p + "(arg)"] += 1
+                        if seen[p + "(arg)"] <= 1:
+                            viol.append({"mech": "predicate_scalar_vs_one_month_series_disagree:" + p,
+                                         "msg": "%s(%s): scalar %s -> %s, one-month series -> %s with include_fat=%s include_protein=%s" % (p, kw, v[:3], s_, m_, inc_f, inc_p),
+                                         "data": {"predicate": p, "a": v[:3], "kwargs": kw, "include_fat": inc_f, "include_protein": inc_p}})
     return {"viol": viol, "obs": {"predicates": True, "comparisons": n, "viol_counts": dict(seen)}}
 
 
